@@ -31,6 +31,7 @@ type rcase struct {
 	Twin   bool     `json:",omitempty"` // QR symbol with near-identical data blocks (twinText)
 	Pad    []int    `json:",omitempty"` // QR symbol of padText(v, level, Pad[0], Pad[1])
 	DM     int      `json:",omitempty"` // index into the 30 sizes (ascending capacity)
+	DMVal  int      `json:",omitempty"` // Data Matrix value-coverage symbol: kind of dmValueText
 	Key    string   // violation key template (%s = optional size class)
 	Expect string   // "exact" | "not-different" | "info"
 	CW     []int    `json:",omitempty"` // damaged positions of the interleaved codeword sequence
@@ -69,6 +70,7 @@ func main() {
 	runFull()
 	runOver()
 	runEuclidShapes()
+	runDMValues()
 	runTwinBlocks()
 	runPadMimic()
 	runSelfTest()
@@ -168,7 +170,7 @@ func classCount(syms ...[]*symbol) map[string]int {
 // one case
 
 func (s *symbol) rcase(key, expect string, f *fault) rcase {
-	rc := rcase{Symbol: s.name(), Kind: s.Kind, V: s.V, Level: s.L, Mask: s.Mask, Twin: s.Twin, Pad: s.pad, DM: s.DMi, Key: key, Expect: expect,
+	rc := rcase{Symbol: s.name(), Kind: s.Kind, V: s.V, Level: s.L, Mask: s.Mask, Twin: s.Twin, Pad: s.pad, DM: s.DMi, DMVal: s.dmValues, Key: key, Expect: expect,
 		CW: f.CW, XOR: f.XOR, Flips: f.Flips}
 	var sb strings.Builder
 	for i, p := range f.CW {
